@@ -46,6 +46,8 @@ type TapeEvent struct {
 
 // Interp executes one path.
 type Interp struct {
+	sum     *sumState // non-nil while a pure callee is being summarised
+	sumHits int
 	prog    *ssa.Program
 	tc      *TermCtx
 	sol     *Solver
@@ -136,6 +138,9 @@ func (in *Interp) goPanic(msg string) {
 // When replaying a prefix no solver call is made. Otherwise every alternative is checked
 // for feasibility; the first feasible one is followed and the others are queued.
 func (in *Interp) decide(n int, cond func(i int) *Term) int {
+	if in.sum != nil {
+		return in.sumDecide(n, cond)
+	}
 	pos := len(in.decisions)
 	if pos < len(in.prefix) {
 		ch := in.prefix[pos]
@@ -203,6 +208,10 @@ func (in *Interp) decide(n int, cond func(i int) *Term) int {
 }
 
 func (in *Interp) assume(c *Term) {
+	if in.sum != nil {
+		in.sumAssume(c)
+		return
+	}
 	if c.IsConst() {
 		if c.CU == 0 {
 			panic(&pathEnd{"assume false"})
@@ -263,6 +272,9 @@ func (in *Interp) concretize(v BV, lo, hi int) int {
 	v = in.resolveBV(v)
 	if v.T == nil {
 		return int(v.C)
+	}
+	if in.sum != nil {
+		panic(sumAbort{"concretisation inside a summary"})
 	}
 	n := hi - lo + 1
 	if n <= 0 {
@@ -623,6 +635,9 @@ func (in *Interp) callFn(fn *ssa.Function, args []Value, env []Value) Value {
 	}
 	if len(fn.Blocks) == 0 {
 		panic(in.unsupported("call to body-less function " + name))
+	}
+	if v, ok := in.trySummarise(fn, args, env); ok {
+		return v
 	}
 	return in.run(fn, args, env)
 }
